@@ -485,6 +485,14 @@ def replay_records():
     inner = D(5, "in", b"", 1.5, True, 1, 2, None, None, None, "::2", None, None, None, ["q"], [1], [], [], 1, 1, [], [], "", 3)
     rows.append(N(inner, [inner, rows[1]], 7))
     rows.append(K(1, "two"))
+    # falsy-but-set values in both class templates (a descriptor with a Python keyword as field name uses the *args/**kwargs one)
+    K2 = RecordDescriptor("test/kw2", [("varint", "from"), ("string", "class"), ("boolean", "is"), ("float", "in"), ("bytes", "def"), ("string[]", "for"), ("uint16", "if"), ("varint[]", "x")])
+    P2 = RecordDescriptor("test/plain2", [("varint", "a"), ("string", "b"), ("boolean", "c"), ("float", "d"), ("bytes", "e"), ("string[]", "f"), ("uint16", "g"), ("varint[]", "x")])
+    for T in (K2, P2):
+        rows.append(T(0, "", False, 0.0, b"", [], 0, [0]))
+        rows.append(T(0, "", False, -0.0, b"", [""], 0, []))
+        rows.append(T(None, None, None, None, None, None, None, None))
+        rows.append(T(-1, " ", True, 1.0, b"\x00", ["", "a"], 1, [0, 0]))
     rows.append(GroupedRecord("grp", [K(3, "k"), N(None, [], 2**65)]))
     rows.append(N(None, None, None))
     return rows
